@@ -1,6 +1,7 @@
 import CopVerif.Real.ClaytonDeriv
 import CopVerif.Real.Frank
 import CopVerif.Real.Rosenblatt
+import CopVerif.Real.Gumbel
 /-!
 # C09 — Bivariate copula samples have uniform margins and the model's dependence
 
@@ -114,6 +115,21 @@ returns) the event identity `u₀ ≤ u ↔ y ≤ h(u,t)` holds. -/
 theorem gumbel_event_identity {θ t u₀ u y : ℝ} (hθ : 1 ≤ θ) (ht : 0 < t) (ht1 : t < 1) (hu₀ : 0 < u₀)
     (hu₀1 : u₀ < 1) (hu : 0 < u) (hu1 : u < 1) (hroot : Gumbel.h θ u₀ t = y) :
     u₀ ≤ u ↔ y ≤ Gumbel.h θ u t := Gumbel.root_le_iff hθ ht ht1 hu₀ hu₀1 hu hu1 hroot
+
+/-- Gumbel θ = 1 (τ = 0, independence): the sample is the pair of draws itself, `(c_i, v_i)` —
+two independent uniforms — because `percent_point(c, v) = c` there. -/
+theorem gumbel_sample_theta_one {τ : ℝ} (hτ : ¬ (1 < τ ∨ τ < -1)) (brent : ℝ → ℝ → ℝ)
+    (d1 d2 : List ℝ) (hlen : d1.length = d2.length) :
+    Gen.Base.sample τ (Gen.Gumbel.ppf (1 : ℝ) brent) d1 d2 = .ok (List.zip d2 d1) := by
+  unfold Gen.Base.sample
+  simp only [ofNat_real, Nat.cast_one]
+  rw [if_neg hτ]
+  unfold Gen.Gumbel.ppf
+  rw [Gumbel.checkFit_ok le_rfl]
+  have hfst : List.map (fun p : ℝ × ℝ => p.1) (List.zip d2 d1) = d2 := by
+    have := List.map_fst_zip (l₁ := d2) (l₂ := d1) (by omega)
+    simpa using this
+  simp [Gen.Gumbel.ppf_leaf0, hfst]
 
 example : ¬ ((1:ℝ) < 1/2 ∨ (1/2:ℝ) < -1) := by norm_num
 
